@@ -605,6 +605,8 @@ pub fn generate(prop: &str, thorough: bool, seed: u64, part: (usize, usize), em:
         let run = emit(em, &c, &s);
         if prop == "C04" { emit_strict(em, &run, &mut seen); }
     }
+    // C03: per demand-active one confirm-active + finalization, however many times the session is re-activated
+    if prop == "C03" && part.0 == 0 { let mut rr = Rng::new(seed ^ 0xC0322); crate::props::gsess::many_activations(em, &mut rr); }
     // C04: a transport that accepts only part of each write: every PDU still reaches the wire complete, so that the
     // length fields describe what was emitted (TPKT and X.224 layers, caps of 1, 3, 7 bytes and irregular ones)
     if prop == "C04" && part.0 == 0 {
